@@ -69,6 +69,16 @@ LvOpt == {Chr(97), Chr(65), Chr(10), Chr(49), Dot, BolL, EolL, Cls(FALSE, <<IC(9
 QOpt8 == {QStar, QPlus, QOpt, QStarL, Q(2, 2, FALSE, "n"), Q(1, 2, FALSE, "n"), Q(2, -1, FALSE, "n"), Q(3, 3, FALSE, "n")}
 FlagsIM == {Fl(i, m, FALSE) : i \in BOOLEAN, m \in BOOLEAN}
 LvOpt6 == {Chr(97), Chr(65), Chr(10), Dot, BolL, EolL}
+GrpA == [k |-> "grp", n |-> 0, r |-> Chr(97)]
+GrpB == [k |-> "grp", n |-> 0, r |-> Chr(98)]
+LvMlCaps == {BolL, GrpA, GrpB, Chr(10)}                            \* groups in alternatives behind ^ under flag m
+ShapesNoGrp == {"ncg", "seq", "alt"}
+ReplG2 == <<91, 36, 49, 124, 36, 50, 93>>                              \* "[$1|$2]"
+NcgAB == [k |-> "ncg", r |-> [k |-> "seq", xs |-> <<Chr(97), Chr(98)>>]]                          \* (?:ab)
+NcgABorBA == [k |-> "ncg", r |-> [k |-> "alt", xs |-> <<[k |-> "seq", xs |-> <<Chr(97), Chr(98)>>],
+                                                      [k |-> "seq", xs |-> <<Chr(98), Chr(97)>>]>>]]          \* (?:ab|ba)
+LvOptFix == {BolL, Chr(98), NcgAB, NcgABorBA}         \* multi-character fixed-length bodies, anchors
+QFix == {Q(2, 2, FALSE, "n"), Q(1, 2, FALSE, "n"), Q(2, -1, FALSE, "n"), Q(0, 2, FALSE, "n"), QStar, QPlusL}
 LvAstral == {Chr(66560), Chr(769), Chr(97), Dot, Cls(FALSE, <<IC(66560), IC(97)>>)}
 LvLoop == {Chr(97), Chr(98), BolL, EolL, Bref(1)}
 FlagsM == {NoFlags, Fl(FALSE, TRUE, FALSE)}
